@@ -553,6 +553,15 @@ def _is_dt(a):
     return isinstance(a, (datetime.datetime, datetime.time))
 
 
+def dt_in_iterable(v, inside=False):
+    """a datetime / time that DeepDiff compares through item hashes (list / tuple item, set member)"""
+    if isinstance(v, (list, tuple, set, frozenset)):
+        return any(dt_in_iterable(x, True) for x in v)
+    if isinstance(v, dict):
+        return any(dt_in_iterable(x, inside) for x in v.values())
+    return inside and _is_dt(v)
+
+
 def _truncate(a, unit):
     if not _is_dt(a):
         return a
@@ -564,6 +573,24 @@ def _truncate(a, unit):
     if unit == "day":
         kw["hour"] = 0
     return a.replace(**kw)
+
+
+def enum_type_clash(t1, t2):
+    """an Enum member directly faces a NON-Enum value whose type is not the type of the member's
+    value (root, common dict keys, any pair of items of two lists / tuples)"""
+    e1, e2 = isinstance(t1, Enum), isinstance(t2, Enum)
+    if e1 != e2:
+        m, o = (t1, t2) if e1 else (t2, t1)
+        return type(o) is not type(m.value)
+    if isinstance(t1, dict) and isinstance(t2, dict):
+        return any(enum_type_clash(t1[k], t2[k]) for k in t1 if k in t2)
+    if isinstance(t1, (list, tuple)) and type(t1) is type(t2):
+        return any(enum_type_clash(x, y) for x in t1 for y in t2)
+    return False
+
+
+def unwrap_enum(a):
+    return a.value if isinstance(a, Enum) else a
 
 
 def _dtkey(sp):
@@ -606,7 +633,7 @@ FEATURES = [
      lambda t1, t2, sp, c: any(_undecodable(a) for a in all_atoms2(t1, t2)),
      both(lambda a: a.decode("latin-1").encode("ascii", "backslashreplace") if _undecodable(a) else a)),
     ("C12-truncate-not-forwarded",
-     lambda t1, t2, sp, c: bool(sp["trunc"]) and any(_is_dt(a) for a in all_atoms2(t1, t2)),
+     lambda t1, t2, sp, c: bool(sp["trunc"]) and (dt_in_iterable(t1) or dt_in_iterable(t2)),
      lambda t1, t2, sp: (vmap(t1, lambda a: _truncate(a, sp["trunc"])), vmap(t2, lambda a: _truncate(a, sp["trunc"])), dict(sp, trunc=None))),
     ("C12-datetime-dict-keys",
      lambda t1, t2, sp, c: any(isinstance(k, datetime.datetime) for k in all_keys2(t1, t2)),
@@ -615,6 +642,9 @@ FEATURES = [
     ("C12-enum-dict-keys",
      lambda t1, t2, sp, c: sp["enum"] and any(isinstance(k, Enum) for k in all_keys2(t1, t2)),
      both_keys(lambda k: isinstance(k, Enum), lambda k: "enum<%s.%s>" % (type(k).__name__, k.name))),
+    ("C12-enum-unwrap-skips-type-check",
+     lambda t1, t2, sp, c: sp["enum"] and enum_type_clash(t1, t2),
+     both(unwrap_enum)),
     ("C12-enum-distance-TypeError",
      lambda t1, t2, sp, c: sp["enum"] and any(isinstance(a, Enum) for a in all_atoms2(t1, t2)),
      both(lambda a: "enum<%s.%s>" % (type(a).__name__, a.name) if isinstance(a, Enum) else a)),
@@ -651,14 +681,23 @@ def attribution(case):
                     present.append((key, tr))
             except Exception:  # noqa
                 pass
+        # features whose presence is an observed exception are re-checked on the CURRENT (partly
+        # transformed) input: they may only surface once another finding is out of the way
+        dynamic = {"C12-enum-distance-TypeError": "EXC:TypeError"}
         for r in (1, 2, 3):
-            for sub in itertools.combinations(present, r):
+            for sub in itertools.permutations(present, r):
                 a, b, s = t1, t2, sp
                 try:
-                    for _k, tr in sub:
+                    ok = True
+                    for k_, tr in sub:
+                        if k_ in dynamic and diff_verdict(a, b, kwargs_of(s), rep, **s.get("knobs", {}))[0] != dynamic[k_]:
+                            ok = False
+                            break
                         a, b, s = tr(a, b, s)
-                    if holds(a, b, s, rep):
-                        out = tuple(k for k, _t in sub)
+                    if ok and holds(a, b, s, rep):
+                        # credit the first feature in the fixed order
+                        keys = [k for k, _t in sub]
+                        out = tuple(k for k, _p, _t in FEATURES if k in keys)
                         break
                 except Exception:  # noqa
                     continue
@@ -879,6 +918,7 @@ FIXED_RICH = [
     (E.A, E2.A, _s(enum=True, numty=True)), ({"k": E.C}, {"k": E2.C}, _s(enum=True, sig=0)), ({"k": E2.Z}, {"k": E.C}, _s(enum=True, sig=0, numty=True)),
     ({"k": E.B}, {"k": E2.B}, _s(enum=True, strty=True)), ({E.A: 1}, {E2.A: 1}, _s(enum=True)), ({E.A}, {E2.A}, _s(enum=True)),
     (E.A, E2.A, _s()), ({"k": E.A}, {"k": E2.A}, _s()),
+    (["x"], E.B, _s(enum=True)), ({"k": ["x"]}, {"k": E.B}, _s(enum=True)), (E.D, frozenset([""]), _s(enum=True, case=True)), (E.A, [1], _s(enum=True)),
     (E.A, 1, _s(enum=True)), ([E.A], [1], _s(enum=True)), ({"k": E.A}, {"k": 1}, _s(enum=True)), ({E.A: 1}, {1: 1}, _s(enum=True)),
     ([E.A], [E.B], _s(enum=True)), (E.B, "x", _s(enum=True)), (E.B, "X", _s(enum=True, case=True)),
 ]
@@ -1011,7 +1051,7 @@ def atom_level(ctx, specs):
         F = coq_opts(sp)
         for a in ATOMS:
             ser.append(("run_c12_ser %s %s" % (F, V.atom_to_coq(a)), DeepHash(a, hasher=ident, **kw)[a], {"atom": repr(a), "options": name_of(sp)}))
-        sel = allpairs if ctx.thorough else rng.sample(allpairs, 220)
+        sel = allpairs if ctx.thorough else rng.sample(allpairs, 150)
         for a, b in sel:
             he = DeepHash(a, **kw)[a] == DeepHash(b, **kw)[b]
             try:
@@ -1094,8 +1134,8 @@ def run(ctx):
     sys.setrecursionlimit(10000)
     replay_witnesses(ctx)
     mspecs = modelled_specs(rng)
-    n_model = 300 if ctx.thorough else 54          # pairs per modelled option set and family mix
-    n_rich = 500 if ctx.thorough else 80
+    n_model = 300 if ctx.thorough else 45          # pairs per modelled option set and family mix
+    n_rich = 500 if ctx.thorough else 60
     jobs = []
     for t1, t2, sp in FIXED:
         for rep in (False, True):
